@@ -61,35 +61,81 @@ func (l *Lifter) classifyPut(stem string, val ast.Expr, pos token.Pos) Item {
 // dateAlt recognises   if (x).IsZero() { put(0) } else { put((x).UnixNano()/100) }
 // and returns the operand x. put extracts the value argument of one branch.
 func (l *Lifter) dateAlt(s *ast.IfStmt, put func(ast.Stmt) (string, ast.Expr, bool)) (Item, bool) {
-	recv, c, ok := methodCall(s.Cond, "IsZero")
-	if !ok || len(c.Args) != 0 || s.Else == nil || s.Init != nil {
+	if s.Init != nil {
 		return Item{}, false
 	}
-	eb, ok := s.Else.(*ast.BlockStmt)
-	if !ok || len(s.Body.List) != 1 || len(eb.List) != 1 {
+	// if X.IsZero() { put 0 } else { put f(X) }   — or the test negated, or the
+	// zero arm missing. Whatever f is, this is the write of a date: f is part of
+	// the signature unless it is the format's (X.UnixNano() / 100, 100ns ticks).
+	cond := unparen(s.Cond)
+	negated := false
+	if u, ok := cond.(*ast.UnaryExpr); ok && u.Op == token.NOT {
+		negated = true
+		cond = unparen(u.X)
+	}
+	recv, c, ok := methodCall(cond, "IsZero")
+	if !ok || len(c.Args) != 0 {
 		return Item{}, false
 	}
-	stemA, va, okA := put(s.Body.List[0])
-	stemB, vb, okB := put(eb.List[0])
-	if !okA || !okB || stemA != "Int64" || stemB != "Int64" {
+	var zeroArm, valueArm []ast.Stmt
+	if s.Else != nil {
+		eb, ok := s.Else.(*ast.BlockStmt)
+		if !ok {
+			return Item{}, false
+		}
+		zeroArm, valueArm = s.Body.List, eb.List
+		if negated {
+			zeroArm, valueArm = valueArm, zeroArm
+		}
+	} else {
+		if !negated {
+			return Item{}, false
+		}
+		valueArm = s.Body.List
+	}
+	if len(valueArm) != 1 || len(zeroArm) > 1 {
 		return Item{}, false
 	}
-	if n, ok := intLit(va); !ok || n != 0 {
+	stemB, vb, okB := put(valueArm[0])
+	if !okB || stemB != "Int64" {
 		return Item{}, false
 	}
-	// (x).UnixNano() / 100  -- 100ns ticks, per the wire spec
-	be, ok := unparen(vb).(*ast.BinaryExpr)
-	if !ok || be.Op != token.QUO {
+	// the value must be computed from the same time value the test looks at
+	mentions := false
+	ast.Inspect(vb, func(n ast.Node) bool {
+		if e, ok := n.(ast.Expr); ok && l.op(e) == l.op(recv) {
+			mentions = true
+		}
+		return true
+	})
+	if !mentions {
 		return Item{}, false
 	}
-	if n, ok := intLit(be.Y); !ok || n != 100 {
-		return Item{}, false
+	prim := "Date"
+	if len(zeroArm) == 1 {
+		stemA, va, okA := put(zeroArm[0])
+		if !okA || stemA != "Int64" {
+			return Item{}, false
+		}
+		if n, ok := intLit(va); !ok || n != 0 {
+			prim = "Date<zero time written as " + Canon(va) + ">"
+		}
+	} else {
+		prim = "Date<nothing written for the zero time>"
 	}
-	r2, c2, ok := methodCall(be.X, "UnixNano")
-	if !ok || len(c2.Args) != 0 || l.op(r2) != l.op(recv) {
-		return Item{}, false
+	std := false
+	if be, ok := unparen(vb).(*ast.BinaryExpr); ok && be.Op == token.QUO {
+		if n, ok := intLit(be.Y); ok && n == 100 {
+			if r2, c2, ok := methodCall(be.X, "UnixNano"); ok && len(c2.Args) == 0 && l.op(r2) == l.op(recv) {
+				std = true
+			}
+		}
 	}
-	return Item{Kind: KScalar, Prim: "Date", Operand: l.op(recv), Pos: s.Pos()}, true
+	if !std && prim == "Date" {
+		conv := strings.ReplaceAll(Canon(vb), Canon(recv), "t")
+		prim = "Date<ticks = " + conv + ">"
+	}
+	return Item{Kind: KScalar, Prim: prim, Operand: l.op(recv), Pos: s.Pos()}, true
 }
 
 func (l *Lifter) unknown(s ast.Node) Item {
@@ -175,7 +221,7 @@ func (l *Lifter) tmpBlock(s ast.Stmt, name string) (Lin, bool) {
 func (l *Lifter) writeWidth(it Item) Lin {
 	switch it.Kind {
 	case KScalar:
-		return Const(widthOfStem[it.Prim])
+		return Const(widthOfStem[baseStem(it.Prim)])
 	case KCount, KPrefix:
 		return Const(4)
 	case KConstByte:
@@ -716,7 +762,7 @@ func SizeOf(items []Item) []SzNode {
 	for _, it := range items {
 		switch it.Kind {
 		case KScalar:
-			add(Const(widthOfStem[it.Prim]))
+			add(Const(widthOfStem[baseStem(it.Prim)]))
 		case KCount, KPrefix:
 			add(Const(4))
 		case KConstByte:
@@ -827,4 +873,14 @@ func (l *Lifter) fixedOf(e ast.Expr) (int, bool) {
 		return 0, false
 	}
 	return l.RecFixed(nt.Obj().Name())
+}
+
+
+// baseStem: "Date<ticks = …>" -> "Date" (a scalar written with a conversion
+// other than the format's keeps its width).
+func baseStem(prim string) string {
+	if i := strings.Index(prim, "<"); i >= 0 {
+		return prim[:i]
+	}
+	return prim
 }
